@@ -210,9 +210,12 @@ def run_case(case, tier):
         except ValueError:
             tab0 = tabT = []
         counts["report_rows_compared"] = counts.get("report_rows_compared", 0) + len(tab0)
-        if [r_["label"] for r_ in tab0] != [r_["label"] for r_ in tabT]:
+        # (which rows there are is the business of the comparison above: of two coupled ligand groups on one common
+        # charge centre - an exact tie - either may be the one that is kept)
+        both = {r_["label"] for r_ in tab0} & {r_["label"] for r_ in tabT}
+        if [r_["label"] for r_ in tab0 if r_["label"] in both] != [r_["label"] for r_ in tabT if r_["label"] in both]:
             viol.append({"cls": "pose-changes-report-order", "msg": "the determinant table lists its groups in another order after the motion"})
-        else:
+        elif [r_["label"] for r_ in tab0] == [r_["label"] for r_ in tabT]:
             for r0_, rT_ in zip(tab0, tabT):
                 for t_ in ("sidechain", "backbone", "coulomb"):
                     l0, lT = [x[1] for x in r0_["cells"][t_]], [x[1] for x in rT_["cells"][t_]]
